@@ -207,3 +207,28 @@ def c17(run, a):
     for fd in r["findings"] or []:
         run.add_violation(fd["check"], fd["detail"][:200], {"property": "C17", "vector": fd["vector"], "phase": fd["phase"], "detail": fd["detail"], "how": "harness/cmd/gcdrive"}, {"check": fd["check"]})
     run.assumptions += ["docker runtime path (CONTAINERD_HOST unset); veth clean-up is not observed", "a phase lasts several GC rounds (interval 15 ms); 'within a bounded number of rounds' is checked as: gone after >= 3 inspect rounds"]
+
+
+def c14(run, a):
+    quick = run.tier == "quick"
+    run.level = "model_checking"
+    vec = tlc_vectors(run, "PortMap", "portmap_q.cfg", "pmvectors.json")
+    meta = json.load(open(vec))
+    binp = run.build("pmdrive")
+    res = run.path("pm.json")
+    p = subprocess.run([binp, "-vectors", vec, "-n", "1500" if quick else "0", "-seed", str(run.seed), "-out", res], stdout=subprocess.PIPE, stderr=subprocess.STDOUT, text=True, timeout=3000)
+    if p.returncode != 0 or not os.path.exists(res):
+        raise vlib.Machinery("pmdrive failed:\n" + p.stdout[-2000:])
+    r = json.load(open(res))
+    cov = run.coverage
+    cov["states"], cov["transitions"] = meta["n"], r["steps"]
+    cov["traces_validated_against_impl"] = r["vectors_run"]
+    cov["evaluations"] = r["steps"] + r["socket_rounds"]
+    cov["distinct_nontrivial"] = r["vectors_run"]
+    cov["exhaustive"] = not quick
+    cov["samples"] = [meta["vectors"][len(meta["vectors"]) // 2]]
+    cov["rule"] = ("TLC checks CleanIsInverse/OthersUntouched/SyncExact on PortMap.tla and enumerates all histories of <= 3 setup/clean/sync operations over 3 pods (4 mappings incl. udp with host IP and two pods with the same host port) "
+                   "x 4 stale-chain sets; each history is run on the real handler over the repository's fake NAT table preloaded with stale and foreign chains, the table compared after every operation; 20 socket rounds with random ports")
+    for fd in r["findings"] or []:
+        run.add_violation(fd["check"], fd["detail"][:200], {"property": "C14", "vector": fd["vector"], "step": fd["step"], "detail": fd["detail"], "how": "harness/cmd/pmdrive"}, {"check": fd["check"]})
+    run.assumptions += ["the repository's fake iptables (iptables-restore --noflush semantics) is the trusted NAT table; KUBE-MARK-MASQ is treated as shared with kubelet, not foreign", "sockets are real (kernel-assigned random ports)"]
